@@ -74,10 +74,13 @@ func ParsePortionSpecific(input string) (*Portion, error) {
 		if len(fractionMatch) != 0 {
 			numerator := fractionMatch[1]
 			denominator := fractionMatch[2]
-			res, ok = new(big.Rat).SetString(numerator + "/" + denominator)
-			if !ok {
+			// both terms are decimal: big.Rat.SetString would read a leading 0 as an octal prefix (010/100 = 8/100)
+			n, okN := new(big.Int).SetString(numerator, 10)
+			d, okD := new(big.Int).SetString(denominator, 10)
+			if !okN || !okD || d.Sign() == 0 {
 				return nil, errors.New("invalid fractional format")
 			}
+			res = new(big.Rat).SetFrac(n, d)
 		}
 	}
 	if res == nil {
